@@ -18,7 +18,8 @@ def tol_of(m):
 def mk_spec(cid, m, groups, plan, *, reltol=None, label=""):
     t = tol_of(m)
     return {"cid": cid, "mdl": m, "groups": list(groups), "tol": t, "reltol": reltol if reltol is not None else t,
-            "plan": plan, "label": label, "diag_ccv": any(s.get("record_ccv") for s in plan)}
+            "plan": plan, "label": label, "diag_ccv": any(s.get("record_ccv") for s in plan),
+            "diag_sim": any(s.get("record_steps") for s in plan)}
 
 
 def qinit(init):
